@@ -1,6 +1,8 @@
 """C12/C13 driver: real bin2tap.main -> real tap2sna.main and projection of the resulting snapshot."""
+import base64
 import os
 import random
+import struct
 
 from . import pipedrv
 
@@ -221,8 +223,34 @@ def worker(args):
     os.makedirs(sub, exist_ok=True)
     out = []
     for k in range(n):
-        g = gen_case(rnd, seed * 1000 + k if systematic else None)
+        idx = seed * 1000 + k if systematic else None
+        st = rnd.getstate()
+        g = gen_case(rnd, idx)
         c = run_case(sub, k, g, rnd)
         c.pop('ramfull', None)
+        # the generator's state before this case: program bytes of any size, screen and bank contents follow from it (--replay)
+        c['gen'] = {'idx': idx, 'mt': base64.b64encode(struct.pack('<625I', *st[1])).decode('ascii'), 'gauss': st[2], 'version': st[0]}
         out.append(c)
     return out
+
+
+def regen(gen):
+    """-> (g, rnd) exactly as they were when the recorded case was generated."""
+    rnd = random.Random(0)
+    rnd.setstate((gen['version'], tuple(struct.unpack('<625I', base64.b64decode(gen['mt']))), gen['gauss']))
+    return gen_case(rnd, gen['idx']), rnd
+
+
+def g_from_record(c):
+    """The generator's dict rebuilt from the fields of a recorded case (only possible when the program bytes were recorded:
+    <= 300 bytes); screen / bank contents are arbitrary filler and come from a fixed seed."""
+    if len(c['bin']) != c['len']:
+        return None, None
+    opts = list(c['opts'])
+    banks = []
+    if c['m128']:
+        banks = [int(x) for x in opts[opts.index('--banks') + 1].split(',')] if '--banks' in opts else [0, 1, 3, 4, 6, 7]
+    parts = c['key'].split('/')
+    g = dict(m128=c['m128'], size=c['len'], org=c['org'], data=list(c['bin']), start=c['start'], stack=c['stack'], clear=c['clear'],
+             scr=int('scr' in parts), want7ffd=c['want7ffd'], banks=banks, opts=opts, fmt=c['fmt'], nostart=int('nostart' in parts))
+    return g, random.Random(0)
